@@ -49,7 +49,12 @@ C15Scen(pr, q, e, fs, ord, pub) ==
      kind |-> "run", per_flow |-> TRUE, sack_perm |-> TRUE, isn32 |-> <<4660, 1>>,
      run |-> [Run(pr[1], pr[2], pr[3], 1, 4, q, e) EXCEPT !.public_ip = (pub # "none"), !.pub_mode = IF pub = "none" THEN "ok" ELSE pub],
      faults |-> fs, flow_delay_us |-> ord, path |-> PathFor(pr[1], pr[3], 1, 4, 3, 0)]
-C15All(u) == { C15Scen(pr, qe[1], qe[2], fs, ord, pub) :
+\* cancellation while the caller is pacing the end-to-end probes (udp/tcp runs do not look at the context themselves)
+C15Cancel(pr, e, c) ==
+    [id |-> "C15/cancel/" \o pr[1] \o pr[2] \o (IF pr[3] THEN "6" ELSE "4") \o "/e" \o ToString(e) \o "/" \o ToString(c), label |-> pr[1] \o pr[2] \o "/cancel_during_e2e_pacing",
+     kind |-> "run", per_flow |-> TRUE, sack_perm |-> TRUE, isn32 |-> <<4660, 1>>, cancel_us |-> c,
+     run |-> Run(pr[1], pr[2], pr[3], 1, 4, 1, e), path |-> PathFor(pr[1], pr[3], 1, 4, 3, 0)]
+C15All(u) == { C15Cancel(pr, e, c) : pr \in {<<"udp", "", FALSE>>, <<"tcp", "syn", FALSE>>, <<"udp", "", TRUE>>}, e \in {2, 4}, c \in {100000, 450000} } \cup { C15Scen(pr, qe[1], qe[2], fs, ord, pub) :
                  pr \in Protos, qe \in {<<1, 0>>, <<3, 0>>, <<0, 2>>, <<2, 3>>, <<3, 1>>}, fs \in FaultSets(4), ord \in Orders, pub \in {"none", "ok", "fail"} }
 
 ---------------------------------------------------------------------------
